@@ -710,12 +710,12 @@ func (l *Lowerer) lowerStruct(s *parser.StructDecl) error {
 		align, size := l.typeAlignmentAndSize(typeHandle)
 
 		// Check for explicit @align(N) attribute on the member
-		if explicitAlign := getAlignAttribute(m.Attributes); explicitAlign > 0 {
+		if explicitAlign := l.getAlignAttribute(m.Attributes); explicitAlign > 0 {
 			align = explicitAlign
 		}
 
 		// Check for explicit @size(N) attribute on the member
-		if explicitSize := getSizeAttribute(m.Attributes); explicitSize > 0 {
+		if explicitSize := l.getSizeAttribute(m.Attributes); explicitSize > 0 {
 			size = explicitSize
 		}
 
@@ -741,14 +741,13 @@ func (l *Lowerer) lowerStruct(s *parser.StructDecl) error {
 }
 
 // getAlignAttribute extracts the value from an @align(N) attribute, returns 0 if not found.
-func getAlignAttribute(attrs []parser.Attribute) uint32 {
+// N is a constant expression (WGSL): literals with suffix or in hexadecimal and
+// named constants are evaluated, not only plain decimal literals.
+func (l *Lowerer) getAlignAttribute(attrs []parser.Attribute) uint32 {
 	for _, attr := range attrs {
 		if attr.Name == "align" && len(attr.Args) == 1 {
-			if lit, ok := attr.Args[0].(*parser.Literal); ok {
-				var val uint32
-				if _, err := fmt.Sscanf(lit.Value, "%d", &val); err == nil {
-					return val
-				}
+			if val, ok := l.evalConstU32Expr(attr.Args[0]); ok {
+				return val
 			}
 		}
 	}
@@ -756,14 +755,11 @@ func getAlignAttribute(attrs []parser.Attribute) uint32 {
 }
 
 // getSizeAttribute extracts the value from a @size(N) attribute, returns 0 if not found.
-func getSizeAttribute(attrs []parser.Attribute) uint32 {
+func (l *Lowerer) getSizeAttribute(attrs []parser.Attribute) uint32 {
 	for _, attr := range attrs {
 		if attr.Name == "size" && len(attr.Args) == 1 {
-			if lit, ok := attr.Args[0].(*parser.Literal); ok {
-				var val uint32
-				if _, err := fmt.Sscanf(lit.Value, "%d", &val); err == nil {
-					return val
-				}
+			if val, ok := l.evalConstU32Expr(attr.Args[0]); ok {
+				return val
 			}
 		}
 	}
@@ -890,22 +886,20 @@ func (l *Lowerer) lowerGlobalVar(v *parser.VarDecl) error {
 	hasBinding := false
 	for _, attr := range v.Attributes {
 		if attr.Name == "group" && len(attr.Args) > 0 {
-			if lit, ok := attr.Args[0].(*parser.Literal); ok {
-				group, _ := parseIntLiteral(lit.Value)
+			if group, ok := l.evalConstU32Expr(attr.Args[0]); ok {
 				if binding == nil {
 					binding = &ir.ResourceBinding{}
 				}
-				binding.Group = uint32(group)
+				binding.Group = group
 				hasGroup = true
 			}
 		}
 		if attr.Name == "binding" && len(attr.Args) > 0 {
-			if lit, ok := attr.Args[0].(*parser.Literal); ok {
-				bind, _ := parseIntLiteral(lit.Value)
+			if bind, ok := l.evalConstU32Expr(attr.Args[0]); ok {
 				if binding == nil {
 					binding = &ir.ResourceBinding{}
 				}
-				binding.Binding = uint32(bind)
+				binding.Binding = bind
 				hasBinding = true
 			}
 		}
@@ -1110,11 +1104,9 @@ func (l *Lowerer) lowerOverride(o *parser.OverrideDecl) error {
 	var id *uint16
 	for _, attr := range o.Attributes {
 		if attr.Name == "id" && len(attr.Args) > 0 {
-			if lit, ok := attr.Args[0].(*parser.Literal); ok {
-				if idVal, parseErr := strconv.ParseUint(lit.Value, 10, 16); parseErr == nil {
-					id16 := uint16(idVal)
-					id = &id16
-				}
+			if idVal, ok := l.evalConstU32Expr(attr.Args[0]); ok && idVal <= math.MaxUint16 {
+				id16 := uint16(idVal)
+				id = &id16
 			}
 		}
 	}
@@ -13094,22 +13086,20 @@ func (l *Lowerer) collectBinding(attrs []parser.Attribute) *ir.Binding {
 			}
 		case "location":
 			if len(attr.Args) > 0 {
-				if lit, ok := attr.Args[0].(*parser.Literal); ok {
-					loc, _ := parseIntLiteral(lit.Value)
+				if loc, ok := l.evalConstU32Expr(attr.Args[0]); ok {
 					if locBinding == nil {
 						locBinding = &ir.LocationBinding{}
 					}
-					locBinding.Location = uint32(loc)
+					locBinding.Location = loc
 				}
 			}
 		case "blend_src":
 			if len(attr.Args) > 0 {
-				if lit, ok := attr.Args[0].(*parser.Literal); ok {
-					idx, _ := parseIntLiteral(lit.Value)
+				if idx, ok := l.evalConstU32Expr(attr.Args[0]); ok {
 					if locBinding == nil {
 						locBinding = &ir.LocationBinding{}
 					}
-					v := uint32(idx)
+					v := idx
 					locBinding.BlendSrc = &v
 				}
 			}
@@ -13334,6 +13324,11 @@ func (l *Lowerer) extractWorkgroupSize(attrs []parser.Attribute) [3]uint32 {
 // evalConstU32Expr evaluates an expression as a compile-time u32 constant.
 // Handles literals, constant identifier references, and simple binary expressions.
 func (l *Lowerer) evalConstU32Expr(expr parser.Expr) (uint32, bool) {
+	// The constant-expression evaluator understands literal suffixes (64u),
+	// hexadecimal literals, abstract and concrete named constants and arithmetic.
+	if _, val, err := l.evalConstantIntExpr(expr); err == nil && val >= 0 && val <= math.MaxUint32 {
+		return uint32(val), true
+	}
 	switch e := expr.(type) {
 	case *parser.Literal:
 		if val, err := strconv.ParseUint(e.Value, 10, 32); err == nil {
